@@ -238,6 +238,154 @@ func runC12(c *Ctx) {
 	c12R2(c, fns)
 	c12R3(c, fns)
 	c12R4(c, fns)
+	c12R5(c, fns)
+	c12R6(c, fns)
+}
+
+// ---------- R5: the path sanitisers do not over-reject ----------
+
+// c12R5: a legal entry / blob name may START with two dots ("..data", "...",
+// "..2024/x"); only ".." itself and names below "../" point outside.  So the
+// only rejecting string tests with a ".." constant are equality with ".." and
+// a prefix test with ".." followed by a separator.  A bare ".." prefix /
+// Contains / Index test rejects legal names: such a tree does not round-trip.
+func c12R5(c *Ctx, fns []*ssa.Function) {
+	const R5 = "C12.R5.sanitisers-do-not-over-reject"
+	c.Expect(R5, 1) // the two sanitisers may share one predicate helper
+	for _, f := range fns {
+		n := 0
+		for _, call := range Calls(f, func(nm string) bool {
+			switch nm {
+			case "strings.HasPrefix", "strings.HasSuffix", "strings.Contains", "strings.Index", "strings.LastIndex", "strings.Count", "strings.ContainsAny", "strings.EqualFold":
+				return true
+			}
+			return false
+		}) {
+			k, ok := constString(call.Common().Args[1])
+			if !ok || !strings.Contains(k, "..") {
+				continue
+			}
+			n++
+			key := FnName(f) + "|dotdot-test:" + CalleeName(call)
+			if n > 1 {
+				key += "#" + string(rune('0'+n))
+			}
+			good := CalleeName(call) == "strings.HasPrefix" && (k == "../" || k == `..\`)
+			c.Check(R5, key, call.Pos(), good, ifelse(good, "prefix test with \"..\" followed by a separator: only names below the parent directory are rejected",
+				CalleeName(call)+" with the bare constant "+strconvQuote(k)+" also rejects legal names that merely start with (or contain) two dots, e.g. \"..data\" or \"...\": a directory containing such an entry cannot be unpacked / such a named blob cannot be pushed"))
+		}
+	}
+}
+
+func strconvQuote(s string) string { return "\"" + s + "\"" }
+
+// ---------- R6: entry modes come from the tar header ----------
+
+// c12ModeFromHeader: the permission argument derives from the entry's header
+// (header.FileInfo().Mode(), header.Mode), possibly masked or passed through
+// unexported helpers.
+func c12ModeFromHeader(v ssa.Value, fns []*ssa.Function, depth int, seen map[ssa.Value]bool) bool {
+	if depth > 6 {
+		return false
+	}
+	rs := Roots(v)
+	if len(rs) == 0 {
+		return false
+	}
+	for _, r := range rs {
+		if seen[r] {
+			continue
+		}
+		seen[r] = true
+		ok := false
+		switch u := r.(type) {
+		case *ssa.Call:
+			switch {
+			case u.Call.IsInvoke() && (u.Call.Method.Name() == "Mode" || u.Call.Method.Name() == "Perm" || u.Call.Method.Name() == "Type"):
+				ok = c12ModeFromHeader(u.Call.Value, fns, depth+1, seen)
+			case CalleeName(u) == "(*archive/tar.Header).FileInfo":
+				ok = true
+			case CalleeName(u) == "(io/fs.FileMode).Perm" || CalleeName(u) == "(io/fs.FileMode).Type":
+				ok = c12ModeFromHeader(u.Call.Args[0], fns, depth+1, seen)
+			}
+		case *ssa.UnOp:
+			if fa, isFA := u.X.(*ssa.FieldAddr); isFA && u.Op == token.MUL && c11TaintStruct(fa.X.Type()) == "tar header" {
+				ok = true
+			}
+		case *ssa.Field:
+			ok = c11TaintStruct(u.X.Type()) == "tar header"
+		case *ssa.BinOp:
+			ok = c12ModeFromHeader(u.X, fns, depth+1, seen) || c12ModeFromHeader(u.Y, fns, depth+1, seen)
+		case *ssa.Parameter:
+			f := u.Parent()
+			idx := -1
+			for i, q := range f.Params {
+				if q == u {
+					idx = i
+				}
+			}
+			n := 0
+			ok = true
+			for _, g := range fns {
+				for _, call := range Calls(g, func(string) bool { return true }) {
+					if StaticCallee(call) == f && idx >= 0 && idx < len(call.Common().Args) {
+						n++
+						if !c12ModeFromHeader(call.Common().Args[idx], fns, depth+1, seen) {
+							ok = false
+						}
+					}
+				}
+			}
+			ok = ok && n > 0 && f.Parent() == nil
+		}
+		if !ok {
+			return false
+		}
+	}
+	return true
+}
+
+// c12R6: what creates an archive entry (MkdirAll for a directory, OpenFile with
+// O_CREATE for a regular file) takes its mode from the entry's header, not from
+// a constant — otherwise modes are lost whenever PreservePermissions is off.
+func c12R6(c *Ctx, fns []*ssa.Function) {
+	const R6 = "C12.R6.entry-mode-from-header"
+	c.Expect(R6, 2)
+	c11PkgFns = fns
+	probe := &Ctx{Prop: c.Prop, Tier: c.Tier, P: c.P, Variant: c.Variant} // role resolution reports lost anchors under C11; not repeated here
+	roles := c11ResolveRoles(probe, fns)
+	if roles == nil {
+		c.LostAnchor(R6, "path sanitiser roles of ~/content/file (see C11.R2)")
+		return
+	}
+	flow := c11NewFlow(c, roles, fns)
+	permIdx := map[string]int{"os.MkdirAll": 1, "os.Mkdir": 1, "os.OpenFile": 2}
+	count := map[string]int{}
+	for _, s := range Inventory(fns, func(n string) bool { _, ok := permIdx[n]; return ok }) {
+		if s.Callee == "os.OpenFile" {
+			fl, known := constInt(s.Call.Common().Args[1])
+			cr, _ := c11OSConst(c.P, "O_CREATE")
+			if known && fl&cr == 0 {
+				continue
+			}
+		}
+		site := &c11Site{Fn: s.Fn, Call: s.Call, Name: s.Callee, Leafs: map[int][]c11Leaf{}}
+		var ls []c11Leaf
+		flow.prov(s.Call.Common().Args[0], s.Call.(ssa.Instruction), 0, map[ssa.Value]bool{}, &ls)
+		site.Leafs[0] = ls
+		if c11OriginRole(flow, site) != "archive-entry" {
+			continue
+		}
+		key := "archive-entry|" + s.Callee
+		count[key]++
+		if count[key] > 1 {
+			key += "#" + string(rune('0'+count[key]))
+		}
+		ok := c12ModeFromHeader(s.Call.Common().Args[permIdx[s.Callee]], fns, 0, map[ssa.Value]bool{})
+		c.Check(R6, key, s.Call.Pos(), ok, ifelse(ok, "the mode of the created entry derives from the tar header [in "+FnName(s.Fn)+"]",
+			s.Callee+" [in "+FnName(s.Fn)+"] creates an archive entry with a mode that does not come from the entry's tar header (a constant, or a value also used for non-archive paths): "+
+				"directory / file modes of the packed tree are lost on unpack unless PreservePermissions is set"))
+	}
 }
 
 // ---------- R1: directory packer ----------
@@ -1672,6 +1820,19 @@ var c12Mutants = []Mutant{
 	{Name: "verified-skipped-for-parsed-checksum", File: "content/file/utils.go",
 		Old: "\tif verifier != nil && !verifier.Verified() {", New: "\tif verifier != nil && len(checksum) < 10 && !verifier.Verified() {",
 		Expect: "C12.R2.unpack-verifies|~/content/file.extractTarGzip|success-dominated-by-verified"},
+	// R5 / R6
+	{Name: "bare-dotdot-prefix-rejects-legal-names", File: "content/file/utils.go",
+		Old: "\tif cleanPath == \"..\" || strings.HasPrefix(cleanPath, \"../\") {", New: "\tif strings.HasPrefix(cleanPath, \"..\") {",
+		Expect: "C12.R5.sanitisers-do-not-over-reject|~/content/file.resolveRelToBase|dotdot-test:strings.HasPrefix"},
+	{Name: "write-path-rejects-any-dotdot-substring", File: "content/file/file.go",
+		Old: "\t\tif strings.HasPrefix(rel, \"../\") || rel == \"..\" {", New: "\t\tif strings.HasPrefix(rel, \"../\") || strings.Contains(rel, \"..\") {",
+		Expect: "C12.R5.sanitisers-do-not-over-reject|(*~/content/file.Store).resolveWritePath|dotdot-test:strings.Contains"},
+	{Name: "dir-entry-mode-constant", File: "content/file/utils.go",
+		Old: "\t\t\terr = os.MkdirAll(filePath, header.FileInfo().Mode())", New: "\t\t\terr = ensureDir(filePath)",
+		Expect: "C12.R6.entry-mode-from-header|archive-entry|os.MkdirAll"},
+	{Name: "file-entry-mode-constant", File: "content/file/utils.go",
+		Old: "\t\t\terr = writeFile(filePath, tr, header.FileInfo().Mode(), buf)", New: "\t\t\terr = writeFile(filePath, tr, 0666, buf)",
+		Expect: "C12.R6.entry-mode-from-header|archive-entry|os.OpenFile"},
 	// R3
 	{Name: "uid-not-zeroed", File: "content/file/utils.go",
 		Old: "\t\theader.Uid = 0\n", New: "",
